@@ -141,6 +141,8 @@ package masswallet
 //@   ensures[C02] err == nil ==> len(msgTx.TxOut) == old(len(msgTx.TxOut)) || len(msgTx.TxOut) == old(len(msgTx.TxOut)) + 1
 //@   ensures[C02] err == nil ==> forall qj_ int :: 0 <= qj_ && qj_ < old(len(msgTx.TxOut)) ==> msgTx.TxOut[qj_] == old(msgTx.TxOut[qj_])
 //@   ensures[C02] err == nil ==> validAmt(fee) && amt(fee) >= amt(userTxFee) && (amt(userTxFee) == 0 ==> amt(fee) >= amt(massutil.MinRelayTxFee()))
+// tags: the transaction was completed under this sender restriction (the address list) and this change address
+//@   assume err == nil ==> ghosts("txSender", msgTx) == ghosts("fromOf", addrs) && ghosts("txChange", msgTx) == changeAddr
 //@   loop#1 invariant validAmt(outAmounts)
 //@   loop#2 invariant amt(targetTxFee) >= amt(userTxFee) && (amt(userTxFee) == 0 ==> amt(targetTxFee) >= amt(massutil.MinRelayTxFee()))
 //@   loop#2 invariant validAmt(outAmounts) && validAmt(targetTxFee) && txWF(msgTx) && (sameBlock(msgTx.TxIn, old(msgTx.TxIn)) || fresh(msgTx.TxIn)) && sameSlice(msgTx.TxOut, old(msgTx.TxOut))
@@ -222,3 +224,57 @@ package masswallet
 //@   closure#1 modifies *
 //@   closure#1 at "return h.walletMgr.syncStore.MarkDeleteWallet(wtx, walletId)" assert[C08] ws != nil && ws.SyncedHeight == txmgr.WalletSyncedDone
 //@   at "h.taskChan.PushRemove(walletId)" assert[C08] err == nil
+
+// ---- C02: the sender restriction and the change address a caller asks for reach the builder unchanged.
+// fromOf(addrs): the sender address the candidate list was prepared for ("" = every address of the wallet).
+//@ func (*WalletManager).prepareFromAddresses
+//@   trusted
+//@   requires w != nil
+//@   ensures err == nil ==> ghosts("fromOf", addrs) == from
+//@ func (*WalletManager).EstimateTxFee
+//@   props C02
+//@   nopanic off
+//@   requires wmWF(w) && config.ChainParams != nil && validAmt(userTxFee)
+//@   requires forall qk_ string :: has(amounts, qk_) ==> validAmt(amounts[qk_])
+//@   modifies *
+//@   ensures[C02] err == nil ==> ghosts("txSender", msgTx) == fromAddr && ghosts("txChange", msgTx) == changeAddr
+//@   loop#1 invariant txWF(msgTx) && fresh(msgTx) && wmWF(w)
+//@ func (*WalletManager).EstimateStakingTxFee
+//@   props C02
+//@   nopanic off
+//@   requires wmWF(w) && config.ChainParams != nil && validAmt(userTxFee)
+//@   requires forall qi_ int :: 0 <= qi_ && qi_ < len(outputs) ==> outputs[qi_] != nil && validAmt(outputs[qi_].Amount)
+//@   modifies *
+//@   ensures[C02] err == nil ==> ghosts("txSender", msgTx) == fromAddr && ghosts("txChange", msgTx) == changeAddr
+//@ func (*WalletManager).EstimateBindingTxFee
+//@   props C02
+//@   nopanic off
+//@   requires wmWF(w) && config.ChainParams != nil && validAmt(userTxFee)
+//@   requires forall qi_ int :: 0 <= qi_ && qi_ < len(outputs) ==> outputs[qi_] != nil && validAmt(outputs[qi_].Amount) && outputs[qi_].Holder != nil && outputs[qi_].BindingTarget != nil
+//@   modifies *
+//@   ensures[C02] err == nil ==> ghosts("txSender", msgTx) == fromAddr && ghosts("txChange", msgTx) == changeAddr
+//@   loop#1 invariant txWF(msgTx) && fresh(msgTx) && wmWF(w)
+//@ func (*WalletManager).AutoCreateRawTransaction
+//@   props C02
+//@   nopanic off
+//@   requires wmWF(w) && config.ChainParams != nil && validAmt(userTxFee)
+//@   requires forall qk_ string :: has(amounts, qk_) ==> validAmt(amounts[qk_])
+//@   modifies *
+//@   only EstimateTxFee
+//@   at "mtx.LockTime = lockTime" assert[C02] ghosts("txSender", mtx) == fromAddr && ghosts("txChange", mtx) == changeAddr
+//@ func (*WalletManager).CreateStakingTransaction
+//@   props C02
+//@   nopanic off
+//@   requires wmWF(w) && config.ChainParams != nil && validAmt(userTxFee)
+//@   requires forall qi_ int :: 0 <= qi_ && qi_ < len(Outputs) ==> Outputs[qi_] != nil && validAmt(Outputs[qi_].Amount)
+//@   modifies *
+//@   only EstimateStakingTxFee
+//@   at "msgTx.LockTime = lockTime" assert[C02] ghosts("txSender", msgTx) == fromAddr && ghosts("txChange", msgTx) == ""
+//@ func (*WalletManager).CreateBindingTransaction
+//@   props C02
+//@   nopanic off
+//@   requires wmWF(w) && config.ChainParams != nil && validAmt(txFee)
+//@   requires forall qi_ int :: 0 <= qi_ && qi_ < len(output) ==> output[qi_] != nil && validAmt(output[qi_].Amount) && output[qi_].Holder != nil && output[qi_].BindingTarget != nil
+//@   modifies *
+//@   only EstimateBindingTxFee
+//@   at "msgTx.LockTime = locktime" assert[C02] ghosts("txSender", msgTx) == fromAddress && ghosts("txChange", msgTx) == ""
